@@ -267,13 +267,17 @@ func TestC17NodeFailure(t *testing.T) {
 		MountA, MountB string
 		WillsA, WillsB int
 		Nodes          int
+		Graceful       bool // node 1 is stopped gracefully (DisconnectClients) instead of failing
 	}
 	var paths []np
 	for _, m := range [][2]string{{"m1", "m2"}, {"m1", "m10"}, {"m10", "m1"}} {
 		for _, wa := range []int{1, 2} {
 			for _, wb := range []int{1, 2} {
 				for _, n := range []int{2, 3} {
-					paths = append(paths, np{m[0], m[1], wa, wb, n})
+					paths = append(paths, np{m[0], m[1], wa, wb, n, false})
+					if n == 2 {
+						paths = append(paths, np{m[0], m[1], wa, wb, n, true})
+					}
 				}
 			}
 		}
@@ -309,7 +313,12 @@ func TestC17NodeFailure(t *testing.T) {
 					}
 				}
 				w.Step()
-				w.Leave(1)
+				if p.Graceful {
+					// graceful stop: the broker itself ends every session of the node (wills are due: no DISCONNECT was seen)
+					w.Node(1).Manager.DisconnectClients(w.Node(1).ctx)
+				} else {
+					w.Leave(1)
+				}
 				w.Idle(8 * time.Second)
 				Observe(w, rep)
 				for mp, c := range watch {
@@ -322,7 +331,7 @@ func TestC17NodeFailure(t *testing.T) {
 							rep.Violate(vk.Violation{Sig: "c17-will-crossed-mount-points", Msg: fmt.Sprintf("%+v: the watcher of mount point %s received %s (x%d), which is not a will of its tenant (%v)", p, mp, k, n, keysSorted(want[mp])), Replay: p})
 							return
 						}
-						if n != 1 {
+						if n != 1 && !p.Graceful { // how many copies a graceful stop publishes is recorded, not judged (DESIGN 9.7)
 							rep.Violate(vk.Violation{Sig: "c17-will-duplicated", Msg: fmt.Sprintf("%+v: %s received %s %d times", p, mp, k, n), Replay: p})
 							return
 						}
